@@ -989,7 +989,7 @@ func runCase(spec *caseSpec) {
 
 	// ---- findRoots with the k-th source operation failing (hook), against the model's find_roots_e:
 	// the error must surface at exactly that operation, a success must be the fault-free root set
-	if spec.Fault > 0 && err == nil && lister != "c" {
+	if spec.Fault > 0 && err == nil {
 		kk := 1 + spec.Fault%(counter.ops+2) // counter.ops+1 and beyond: never reached
 		fsrc := &faultSrc{ReadOnlyGraphStorage: hookSrc, countdown: kk}
 		var src content.ReadOnlyGraphStorage = fsrc
